@@ -90,6 +90,37 @@ pub fn check(c: &PathCase, obs: &mut Obs) -> Result<(), String> {
         nopanic("Selector::exists", || Selector::new(p(), Mode::Mixed).exists(&root))?.ok();
         nopanic("Selector::predicate_match", || Selector::new(p(), Mode::First).predicate_match(&root))?.ok();
     }
+    // the same selections appended to buffers that already hold earlier results: what is
+    // appended, and what was there, must not depend on the buffers' contents
+    {
+        let h = crate::jser::hash_bytes(text);
+        let prior: Vec<u8> = (0..(1 + h % 13) as u8).map(|i| i.wrapping_mul(37) ^ (h >> 8) as u8).collect();
+        let prior_offs: Vec<u64> = vec![prior.len() as u64];
+        for mode in [Mode::All, Mode::First, Mode::Array, Mode::Mixed] {
+            let (mut d0, mut o0) = (Vec::new(), Vec::new());
+            let r0 = nopanic("Selector::select", || Selector::new(p(), mode.clone()).select(&root, &mut d0, &mut o0))?;
+            let (mut d1, mut o1) = (prior.clone(), prior_offs.clone());
+            let r1 = nopanic("Selector::select (appending)", || Selector::new(p(), mode.clone()).select(&root, &mut d1, &mut o1))?;
+            if r0.is_ok() != r1.is_ok() {
+                return Err(format!("select({mode:?}) of {:?}: {r0:?} into empty buffers, {r1:?} into buffers holding an earlier result; document {doc:?}", c.path));
+            }
+            if r0.is_ok() {
+                let mut wd = prior.clone();
+                wd.extend_from_slice(&d0);
+                let mut wo = prior_offs.clone();
+                wo.extend(o0.iter().map(|x| x + prior.len() as u64));
+                if d1 != wd || o1 != wo {
+                    return Err(format!(
+                        "select({mode:?}) of {:?} appended to buffers holding {} / {prior_offs:?} left {} / {o1:?}; into empty buffers it writes {} / {o0:?}\n  document {doc:?}",
+                        c.path,
+                        hex(&prior),
+                        hex(&d1),
+                        hex(&d0)
+                    ));
+                }
+            }
+        }
+    }
     let r_exists = nopanic("path_exists", || jsonb::path_exists(&root, p()))?;
     let r_match = nopanic("path_match", || jsonb::path_match(&root, p()))?;
 
